@@ -10,7 +10,7 @@ from refs import parsers
 
 T, BR = CaptionNode.create_text, CaptionNode.create_break
 
-ADVERSARIAL = ["-->", "a --> b", "&amp;lt;", "&lt;", "<i>", "</i>", "<b>bold</b>", "]]>", "<![CDATA[x]]>", "&#65;", "&#x41;",
+ADVERSARIAL = ["family \U0001f468\u200d\U0001f469\u200d\U0001f467 emoji", "co\u00adoperate \u200e(x)\u200f no\u2060break \u0645\u06cc\u200c\u062e\u0648\u0627\u0647\u0645", "-->", "a --> b", "&amp;lt;", "&lt;", "<i>", "</i>", "<b>bold</b>", "]]>", "<![CDATA[x]]>", "&#65;", "&#x41;",
                "&nbsp;", "\"quoted\"", "it's", "a & b", "x < y > z", "<v Bob>", "</span>", "<br/>", "<p>", "&", "<", ">",
                "1", "00:00:01,000 --> 00:00:02,000", "{1}{2}", "WEBVTT", "<!-- c -->", "a b", "Ünï çødé ♪", "tab\there",
                "🎉 party 🎉", "𝄞 clef", "𠮷野家", "  padded  ", "SCORE   HOME  2", "Wait.  What?", "semi;colon", "%s %d {0}", "\\n", "<sync start=\"1\">", "&unknown;", "&amp", "<<>>", "--", "->"]
@@ -158,8 +158,9 @@ def shared_objects(ctx, b, tx, rng):
 
             def together(fmt=fmt, W=W, lines=lines):
                 texts3 = [[lines[0]], [lines[1], "middle"], ["last " + lines[0]]]
+                # (the second of them ends with a line break: a line break is not the end of a line that follows it)
                 cs = CaptionSet({"en-US": CaptionList([Caption(1000000, 2000000, [T("before")])] +
-                                                      [Caption(3000000, 4000000, node_lists(tl, "plain")) for tl in texts3] +
+                                                      [Caption(3000000, 4000000, node_lists(tl, "trailing_break" if k_ == 1 else "plain")) for k_, tl in enumerate(texts3)] +
                                                       [Caption(5000000, 6000000, [T("after")])])})
                 doc = _WRITER_OBJECTS.setdefault(fmt, W()).write(cs)
                 try:
